@@ -302,6 +302,7 @@ FUNCTIONS['LOOKUP'] = wrap_ufunc(
 
 
 def args_parser_hlookup(val, vec, index, match_type=1, transpose=False):
+    raise_errors(match_type, index)
     index = int(_text2num(np.ravel(index)[0]) - 1)
     vec = np.matrix(vec)
     if transpose:
